@@ -255,13 +255,24 @@ func OptDNSSL(lifetime uint32, domains ...string) NDOption {
 }
 
 // OptRouteInfo is the route information option (RFC 4191) with a full 16-byte prefix.
-func OptRouteInfo(pfx netip.Prefix, prf byte, lifetime uint32) NDOption {
-	d := make([]byte, 22)
+// OptRouteInfo builds a route information option (RFC 4191) in its shortest form: no prefix
+// bytes for /0, eight for up to /64, sixteen beyond. full forces the sixteen-byte form.
+func OptRouteInfo(pfx netip.Prefix, prf byte, lifetime uint32, full ...bool) NDOption {
+	n := 16
+	if len(full) == 0 || !full[0] {
+		switch {
+		case pfx.Bits() == 0:
+			n = 0
+		case pfx.Bits() <= 64:
+			n = 8
+		}
+	}
+	d := make([]byte, 6+n)
 	d[0] = byte(pfx.Bits())
 	d[1] = (prf & 3) << 3
 	binary.BigEndian.PutUint32(d[2:6], lifetime)
 	a := pfx.Addr().As16()
-	copy(d[6:22], a[:])
+	copy(d[6:], a[:n])
 	return NDOption{Type: 24, Data: d}
 }
 
